@@ -343,14 +343,15 @@ impl ChanceInfosetData {
 #[derive(Debug)]
 struct PlayerInfosetBuilder<A> {
     actions: Box<[A]>,
-    prev_infoset: Option<usize>,
+    /// the previous infoset of this player and the index of the action taken there
+    prev: Option<(usize, usize)>,
 }
 
 impl<A> PlayerInfosetBuilder<A> {
-    fn new(actions: impl Into<Box<[A]>>, prev_infoset: Option<usize>) -> Self {
+    fn new(actions: impl Into<Box<[A]>>, prev: Option<(usize, usize)>) -> Self {
         PlayerInfosetBuilder {
             actions: actions.into(),
-            prev_infoset,
+            prev,
         }
     }
 }
@@ -367,7 +368,7 @@ impl<I, A> PlayerInfosetData<I, A> {
         PlayerInfosetData {
             infoset,
             actions: builder.actions,
-            prev_infoset: builder.prev_infoset,
+            prev_infoset: builder.prev.map(|(info, _)| info),
         }
     }
 
@@ -465,7 +466,7 @@ impl<I: Hash + Eq, A: Hash + Eq> Game<I, A> {
         player_infosets: &mut [&mut Builder<I, PlayerInfosetBuilder<A>>; 2],
         single_infosets: &mut [&mut HashMap<I, A>; 2],
         node: T,
-        mut prev_infosets: [Option<usize>; 2],
+        prev_infosets: [Option<(usize, usize)>; 2],
     ) -> Result<Node, GameError>
     where
         T: IntoGameNode<PlayerInfo = I, Action = A>,
@@ -553,7 +554,7 @@ impl<I: Hash + Eq, A: Hash + Eq> Game<I, A> {
                                 let (ind, info) = ent.get();
                                 if *info.actions != *actions {
                                     Err(GameError::ActionsNotEqual)
-                                } else if &info.prev_infoset != player_num.ind(&prev_infosets) {
+                                } else if &info.prev != player_num.ind(&prev_infosets) {
                                     Err(GameError::ImperfectRecall)
                                 } else {
                                     Ok(ind)
@@ -571,16 +572,19 @@ impl<I: Hash + Eq, A: Hash + Eq> Game<I, A> {
                                 }
                             }
                         }?;
-                        *player_num.ind_mut(&mut prev_infosets) = Some(info_ind);
                         let next_verts: Result<Box<[_]>, _> = nexts
                             .into_iter()
-                            .map(|next| {
+                            .enumerate()
+                            .map(|(act_ind, next)| {
+                                // a player remembers the infoset and the action taken there
+                                let mut next_prevs = prev_infosets;
+                                *player_num.ind_mut(&mut next_prevs) = Some((info_ind, act_ind));
                                 Game::init_recurse(
                                     chance_infosets,
                                     player_infosets,
                                     single_infosets,
                                     next,
-                                    prev_infosets,
+                                    next_prevs,
                                 )
                             })
                             .collect();
